@@ -122,7 +122,8 @@ def run_fw(pid, tier, seed, replay, ctx, gens, tags, mech=None, budget=None):
             elif ws[0] == "mon" and ws[1] == pid and ws[2] == "FAIL":
                 cid = ws[3]
                 msg = " ".join(ws[4:])
-                key = f"{pid}:{re.sub(r'call [0-9]+', 'call N', msg)}"
+                # one key per kind of failure: numbers (call index, machine ids, values) are abstracted
+                key = f"{pid}:{re.sub(r'[0-9]+', 'N', msg)}"
                 mons.append((key, f"monitor {pid} failed on the implementation's trace: {msg}\n" + blocks.get(cid, "")))
             elif ws[0] == "badblocks":
                 dis.append("driver could not parse " + ws[1] + " case blocks of " + name)
@@ -147,11 +148,20 @@ def run_fw(pid, tier, seed, replay, ctx, gens, tags, mech=None, budget=None):
     }
 
 
+FW_ASSUMPTIONS = [
+    "the theorems are about the hand-written Lean model; its agreement with the Rust code is established by sampling (differential correspondence on actions, internal snapshot and hooked internal log), not proved",
+    "u64 packet counters are unbounded naturals in the model (overflow needs 2^64 reported events)",
+    "IEEE-754 arithmetic is the Rat-based model MbVerif/Fp.lean (one correctly rounded step per operation)",
+    "randomness is an arbitrary oracle in the theorems and the hook log of the compared run in the correspondence",
+]
+
+
 def fw(gens, tags, mech=None, **kw):
     def run(pid, tier, seed, replay, ctx):
         return run_fw(pid, tier, seed, replay, ctx, gens, tags, mech)
     d = {"run": run, "files": FW_FILES}
     d.update(kw)
+    d["assumptions"] = FW_ASSUMPTIONS + kw.get("assumptions", [])
     return d
 
 
@@ -160,7 +170,7 @@ PROPS = {
               assumptions=["the correspondence samples histories; the bounded-exhaustive family of the property's quantifier (8 machine sets of 1-3 small machines, full event alphabet "
                            "with known/unknown ids, 4 clock patterns incl. backwards, 6^3 scripted draw words around the dyadic thresholds) is enumerated completely at depth 2 in the thorough "
                            "tier and strided at depth 3; quick tier strides both"]),
-    "C01": fw([("general", 2500, 60000), ("czcycle", 1500, 40000)], {"res", "len", "L"}, mech=["LR", "CZ", "SIG", "END", "batch"],
+    "C01": fw([("general", 2500, 60000), ("czcycle", 1500, 40000), ("extsample", 600, 20000)], {"res", "len", "L"}, mech=["LR", "CZ", "SIG", "END", "batch"],
               assumptions=["u64 packet counters are modelled as unbounded naturals (overflow needs 2^64 reported events)",
                            "machines have the shape of the Rust types (13 transition slots); proved for everything the bincode decoder accepts (C11)"]),
     "C02": fw([("general", 2500, 40000)], {"A", "RP", "G", "res", "len"}, mech=["aP"],
